@@ -46,3 +46,9 @@ contract("abs:Scenario.all_steps", trusted=True, params={"self": "ref:Scenario"}
          doc="the scenario's step sequence (inherited background steps first)")
 trusted_note("abs:Scenario.all_steps",
              "Scenario.all_steps abstracted to a stable sequence all_steps_of(scenario) of Step objects")
+
+contract(MC + "BasicStatement.store_exception_context", inline=True)
+contract(MC + "BasicStatement.reset", inline=True,
+         callsites={"self.captured.reset": "abs:Captured.reset"})
+contract("abs:Captured.reset", trusted=True, pos_params=["self"], pure=True, doc="clears captured output (no tracked state)")
+contract(M + "Step.reset", inline=True)
